@@ -168,9 +168,95 @@ def framework_errors_inside_bodies(ctx):
                             state['bodies'], replayed[:1], live), w)
 
 
+def interceptions_inside_data_handlers(ctx):
+    """The data handler of an intercepted input / output asks ANOTHER intercepted input of the same recorder how to pack the value (in
+    prepare) and how to unpack it (in restore): that inner interception occurs during the operation like any other one, so it is
+    captured - or the recording is not saved / flagged incomplete. What is saved and complete replays on unchanged code."""
+    from playback.tape_recorder import TapeRecorder
+    from playback.exceptions import RecordingKeyError
+    from playback.interception.input_interception import InputInterceptionDataHandler
+    from playback.interception.output_interception import OutputInterceptionDataHandler
+    from vlib.cassettes import open_box
+    from vlib.spies import SpyCassette
+
+    for kind in ('memory', 'file', 's3'):
+        for where in ('input_handler', 'output_handler', 'both', 'body_calls_it_too', 'body_calls_it_with_other_args'):
+            with open_box(kind) as box:
+                spy = SpyCassette(box.cassette)
+                rec = TapeRecorder(spy)
+                rec.enable_recording()
+                state = {'codec': 'upper', 'bodies': 0}
+
+                class Settings(object):
+                    @staticmethod
+                    @rec.static_intercept_input('settings.codec')
+                    def codec(purpose='any'):
+                        state['bodies'] += 1
+                        return state['codec']
+
+                class Packed(InputInterceptionDataHandler):
+                    def prepare_input_for_recording(self, interception_key, result, args, kwargs):
+                        return [Settings.codec('pack'), result.upper() if Settings.codec('pack') == 'upper' else result.lower()]
+
+                    def restore_input_from_recording(self, recorded_data, args, kwargs):
+                        return recorded_data[1].lower() if Settings.codec('pack') == 'upper' else recorded_data[1].upper()
+
+                class PackedOut(OutputInterceptionDataHandler):
+                    def prepare_output_for_recording(self, interception_key, args, kwargs):
+                        return {'args': [Settings.codec('out'), list(args[1:])], 'kwargs': {}}
+
+                    def restore_output_from_recording(self, recorded_data):
+                        return recorded_data
+
+                class Doc(object):
+                    fetch = rec.intercept_input('templates.fetch', data_handler=Packed() if where != 'output_handler' else None)(
+                        lambda self, n: (state.__setitem__('bodies', state['bodies'] + 1), 'template %d' % n)[1])
+                    send = rec.intercept_output('printer.send', data_handler=PackedOut() if where in ('output_handler', 'both') else None)(
+                        lambda self, text: (state.__setitem__('bodies', state['bodies'] + 1), len(text))[1])
+
+                    @rec.operation()
+                    def run(self):
+                        if where == 'body_calls_it_too':
+                            Settings.codec('pack')
+                        if where == 'body_calls_it_with_other_args':
+                            Settings.codec('body')
+                        text = self.fetch(7)
+                        return [text, self.send(text + '!')]
+                live = Doc().run()
+                w = {'interception_inside_a_data_handler': where, 'cassette': kind}
+                ctx.case(w)
+                ctx.count('runs_with_an_interception_inside_a_data_handler')
+                fins = [e for e in spy.log if e[0] in ('save', 'abort')]
+                ctx.count('finalisations_checked')
+                if len(fins) != 1:
+                    ctx.violation('recording finalised %d times; must be exactly once' % len(fins), w)
+                saves = [e for e in spy.log if e[0] == 'save' and not (e[4] or {}).get(TapeRecorder.INCOMPLETE_RECORDING)]
+                if not saves:
+                    ctx.count('not_saved_or_flagged_incomplete')
+                    continue
+                state['bodies'] = 0
+                state['codec'] = 'lower'          # the replaying machine is configured differently: the recorded answer must be used
+                rec.tape_cassette = box.reader()
+                try:
+                    pb = rec.play(saves[0][2], lambda recording: Doc().run())
+                    ctx.count('saved_complete_recordings_replayed')
+                except RecordingKeyError as ex:
+                    ctx.violation('a saved, complete recording hit a missing key when replayed on unchanged code (an interception made by a data handler '
+                                  'was not captured)', dict(w, error=str(ex)[:200]))
+                    continue
+                except BaseException as ex:  # noqa
+                    ctx.violation('replay of a saved, complete recording on unchanged code ended with %s' % type(ex).__name__, dict(w, error=str(ex)[:200]))
+                    continue
+                replayed = [o.value['args'][0] for o in pb.playback_outputs if '_tape_recorder_operation' in o.key]
+                if state['bodies'] or not replayed or replayed[0] != live:
+                    ctx.violation('a saved, complete recording does not replay what the operation did (bodies run: %d, result %r, live %r)' % (
+                        state['bodies'], replayed[:1], live), w)
+
+
 def run(ctx):
     if ctx.shard == 0:
         framework_errors_inside_bodies(ctx)
+        interceptions_inside_data_handlers(ctx)
     nprog = 10 if ctx.quick else 60
     progs = fr.base_programs(ctx.seed + 101, nprog)
     irng = random.Random(ctx.seed + 77)
@@ -243,6 +329,8 @@ def run(ctx):
 def replay(ctx, w):
     if w.get('framework_error_in_body'):
         return framework_errors_inside_bodies(ctx)
+    if w.get('interception_inside_a_data_handler'):
+        return interceptions_inside_data_handlers(ctx)
     from vlib.programs import gen_program
     o = dict(threads=False, max_steps=5, max_in_decls=3, max_out_decls=2, explicit_raise=0.1, raise_rate=0.1)
     prog = gen_program(random.Random(w['gen_seed']), **o)
